@@ -323,13 +323,16 @@ theorem flexValidate_noFault (d : Dict) (hd : Law d) (l : LenTy) (hl : l.Law) (o
           · simp
           · rename_i hnz hgt hcond
             simp only [Bool.or_eq_true, decide_eq_true_eq, Bool.and_eq_true, Bool.not_eq_true', decide_eq_false_iff_not, not_or, not_and, Nat.not_lt] at hcond
-            have hge : os ≤ next := by omega
             split
             · -- last item
               have h1 : os ≤ data.len := by omega
               simp only [Slice.splitAt, h1, if_true, Res.offset_noFault]
               exact hd.validate_noFault _
             · rename_i hlast
+              have hge : os ≤ next := by
+                have hlast' : next ≠ l.max := by simpa using hlast
+                have := fun h => hgt ⟨hlast', h⟩
+                omega
               have hnd : next ≤ data.len := by
                 have := hcond.2
                 by_cases hq : next = l.max
